@@ -15,20 +15,20 @@ def run(chk, tier):
     for u in XML_UNITS:
         v, us = N.run(chk, u)
         tv += v; tu += us
-    chk.floor("R-NULLATTR", "optional local pointers in the XML import code", tv, 40)
-    chk.floor("R-NULLATTR", "non-NULL-requiring uses checked", tu, 60)
+    chk.floor("R-NULLATTR", "optional local pointers in the XML import code", tv, 30)
+    chk.floor("R-NULLATTR", "non-NULL-requiring uses checked", tu, 45)
     chk.rule("R-CAP", "difference-bound dataflow on array accesses (indexes[], u64values[], different_types[], fixed buffers)")
     no = 0
     for u in XML_UNITS:
         o, _ = cap.run(chk, P, u)
         no += o
-    chk.floor("R-CAP", "in-scope array accesses in the XML import code", no, 3)
+    chk.floor("R-CAP", "in-scope array accesses in the XML import code", no, 2)
     chk.rule("R-PROG", "loop progress in the XML code and in the read-only printers reached after a load")
     nl = progloops.run(chk, P, XML_UNITS + ["traversal.c", "distances.c", "memattrs.c", "cpukinds.c", "base64.c"])
-    chk.floor("R-PROG", "in-scope loops", nl, 60)
+    chk.floor("R-PROG", "in-scope loops", nl, 45)
     chk.rule("R-SNPSIZE", "snprintf into fixed buffers bounded by sizeof")
     ns = snp.fixed_buffers(chk, P, XML_UNITS)
-    chk.floor("R-SNPSIZE", "fixed-buffer snprintf sites in the XML code", ns, 8)
+    chk.floor("R-SNPSIZE", "fixed-buffer snprintf sites in the XML code", ns, 6)
     chk.rule("R-FREERESET", "a child list released on the failure path of hwloc_look_xml is reset to NULL (same field) before returning, so that the topology can be cleared/destroyed again")
     guards.free_then_reset(chk, P, "hwloc_look_xml", "topology-xml.c", ("hwloc_free_object_siblings_and_children",), min_inst=4)
     chk.decided += ["no NULL dereference from a missing attribute (all optional locals of the import functions, all paths)",
